@@ -133,6 +133,21 @@ theorem markStale_ok {s : Pool} (ok : PoolOk s) : PoolOk (markStale s) := by
   · unfold NoDoubleSpend; rw [ht]; exact ok.nds
   · unfold IndexAgrees; rw [ht]; exact ok.idx
 
+theorem staleSpenders_txs (b : Block) (s : Pool) : (staleSpenders b s).txs = s.txs := by
+  unfold staleSpenders Pool.txs
+  simp only [List.map_map]
+  apply List.map_congr_left
+  intro e _
+  simp only [Function.comp]
+  split <;> rfl
+
+theorem staleSpenders_ok {s : Pool} (b : Block) (ok : PoolOk s) : PoolOk (staleSpenders b s) := by
+  have ht := staleSpenders_txs b s
+  refine ⟨?_, ?_, ?_⟩
+  · unfold IdFun; rw [ht]; exact ok.idFun
+  · unfold NoDoubleSpend; rw [ht]; exact ok.nds
+  · unfold IndexAgrees; rw [ht]; exact ok.idx
+
 theorem connectTx_ok (pol : Policy) (c : Chain) (prio : List Nat) (s : Pool) (t : TxAbs) (ok : PoolOk s) :
     PoolOk (connectTx pol c prio s t) := by
   unfold connectTx
@@ -178,7 +193,8 @@ theorem step_ok (pol : Policy) (st : State) (op : Op) (ok : PoolOk st.pool) : Po
     · exact ok
     · simp only
       apply foldl_inv PoolOk _ _ _ _
-      · split
+      · apply staleSpenders_ok
+        split
         · exact markStale_ok ok
         · exact ok
       · intro b' a hb; exact connectTx_ok pol _ prio b' a hb
